@@ -72,6 +72,32 @@ def gen(seed, tier="quick"):
             pnames.append((nm, dt))
         nodes.append({"name": "n%d" % ni, "params": ps, "follows": topo.random() < 0.8})
 
+    # set-up order: publishers and subscribers are created in one generated order, and some
+    # publishers already publish before everybody (including the logger) has subscribed
+    setup = [{"op": "mk_pub", "topic": tp["name"]} for tp in topics]
+    if topo.random() < 0.5:
+        mixed = setup + [{"op": "mk_sub", "id": sp["id"]} for sp in subs]
+        topo.shuffle(mixed)
+        # keep the relative order of subscribers as generated (registration order is `subs`)
+        it = iter(subs)
+        setup = [({"op": "mk_sub", "id": next(it)["id"]} if m["op"] == "mk_sub" else m) for m in mixed]
+        for _ in range(topo.choice([0, 1, 2, 4])):
+            setup.insert(topo.randint(0, len(setup)), {"op": "early_pub", "topic": topo.choice(topics)["name"]})
+    else:
+        setup = setup + [{"op": "mk_sub", "id": sp["id"]} for sp in subs]
+
+    # derived parameters: a following node sets another parameter from inside its parameter callback
+    f8 = [nm for nm, dt in pnames if dt == "f8"]
+    used_src, used_dst = set(), set()
+    for nd in nodes:
+        if nd["follows"] and len(f8) >= 2 and topo.random() < 0.35:
+            src, dst = topo.sample(f8, 2)
+            if src in used_dst or dst in used_src or dst in used_dst:
+                continue
+            used_src.add(src)
+            used_dst.add(dst)
+            nd["derive"] = {"src": src, "dst": dst, "gain": topo.choice([2.0, -1.0, 0.5])}
+
     tf = knobs.choice([0.05, 0.2, 0.5, 1.0, 3.0]) if not big else 3.0
     ldt0 = knobs.choice([1 / 1000, 1 / 400, 1 / 200, 1 / 100, 1 / 50, 1 / 20, 1 / 5, 0.0173, 0.003])
     if tf / ldt0 > 1500:
@@ -163,6 +189,7 @@ def gen(seed, tier="quick"):
         "sched_seed": seed,
         "topics": topics,
         "subs": subs,
+        "setup": setup,
         "nodes": nodes,
         "init_params": init_params,
         "ops": ops,
@@ -183,6 +210,8 @@ class BusModel:
         self.republish = {}  # sub id -> [topic]
         self.params = {}  # name -> (value, dtype)
         self.serial = 0
+        self.has_pub = set()  # topics whose publisher exists (nested publications need one)
+        self.rules = []  # derived parameters: {"node", "src", "dst", "gain", "seen"}
 
     def add_topic(self, topic, tname):
         self.types[topic] = tname
@@ -190,6 +219,19 @@ class BusModel:
     def add_sub(self, sid, topic, republish=()):
         self.subs.setdefault(topic, []).append(sid)
         self.republish[sid] = list(republish)
+
+    def broadcast(self):
+        """One parameter broadcast reaches every following node; a node with a derived parameter
+        sets it (a nested set_param) when the source value it sees has changed."""
+        import numpy as _np
+
+        for r in self.rules:
+            v, dt = self.params[r["src"]]
+            cur = _np.array(v, dtype=dt)[()]
+            key = _np.array(cur).tobytes()
+            if key != r["seen"]:
+                r["seen"] = key
+                self.params[r["dst"]] = (r["gain"] * float(cur), self.params[r["dst"]][1])
 
     def next_serial(self):
         self.serial += 1
@@ -200,6 +242,8 @@ class BusModel:
         for sid in self.subs.get(topic, []):
             out.append((sid, topic, serial))
             for t2 in self.republish.get(sid, []):
+                if t2 not in self.has_pub:
+                    continue
                 s2 = self.next_serial()
                 self.expand(t2, s2, out)
         return out
@@ -258,9 +302,6 @@ def run(scn):
 
     tname = {tp["name"]: tp["type"] for tp in scn["topics"]}
     pubs = {}
-    for tp in scn["topics"]:
-        pubs[tp["name"]] = uros.Publisher(core, tp["name"], getattr(msgs, tp["type"]))
-        model.add_topic(tp["name"], tp["type"])
     model.add_topic("params", "Params")
 
     delivered = []  # actual callback entries (sid, topic, serial) of the current top-level op
@@ -310,14 +351,71 @@ def run(scn):
         rt[0] += 1
         return rt[0]
 
+    def publish_and_compare(topic, msg, serial, what="publish"):
+        """Publish on the real bus and compare the callbacks it makes with the reference model."""
+        model.serial = rt[0]
+        scratch = copy.copy(model)
+        exp = []
+        scratch.expand(topic, serial, exp)
+        del delivered[:]
+        do_publish(topic, msg, serial)
+        if delivered != exp:
+            i = 0
+            while i < min(len(delivered), len(exp)) and delivered[i] == exp[i]:
+                i += 1
+            violation("delivery_history_differs", "Publisher.publish",
+                      "%s on %s serial %d: callbacks (sub, topic, serial) %s but reference model expects %s (first difference at index %d)"
+                      % (what, topic, serial, delivered[:10], exp[:10], i), topic=topic)
+        if rt[0] != scratch.serial:
+            violation("delivery_history_differs", "Publisher.publish", "nested publications: %d happened, model expects %d" % (rt[0] - serial, scratch.serial - serial), topic=topic)
+        model.serial = rt[0]
+
+    # set-up phase: publishers and subscribers are created in a generated order, and publishers may
+    # already publish while later subscribers (and the logger) do not exist yet
     sub_objs = {}
+    sub_specs = {sp["id"]: sp for sp in scn["subs"]}
+    setup = scn.get("setup")
+    if setup is None:
+        setup = [{"op": "mk_pub", "topic": tp["name"]} for tp in scn["topics"]] + [{"op": "mk_sub", "id": sp["id"]} for sp in scn["subs"]]
+    early_msgs = {}
+    for item in setup:
+        if item["op"] == "mk_pub":
+            tn = item["topic"]
+            if tn in tname and tn not in pubs:
+                pubs[tn] = uros.Publisher(core, tn, getattr(msgs, tname[tn]))
+                model.add_topic(tn, tname[tn])
+                model.has_pub.add(tn)
+        elif item["op"] == "mk_sub":
+            spec = sub_specs.get(item["id"])
+            if spec is None or spec["id"] in sub_objs:
+                continue
+            if spec["topic"] in tname and spec["type"] != tname[spec["topic"]]:
+                spec = dict(spec, type=tname[spec["topic"]])
+            sub_objs[spec["id"]] = Sub(spec)
+            model.add_sub(spec["id"], spec["topic"], [t for t in spec["republish"] if t in tname])
+            if spec["topic"] not in tname:
+                fault("subscriber_without_publisher")
+        elif item["op"] == "early_pub":
+            tn = item["topic"]
+            if tn in pubs:
+                fault("publish_before_all_subscribed")
+                if tn not in early_msgs:
+                    early_msgs[tn] = getattr(msgs, tname[tn])()
+                sr = rt_serial()
+                _fill(early_msgs[tn], sr, core.now)
+                publish_and_compare(tn, early_msgs[tn], sr, "set-up phase publish")
+    # anything the set-up list forgot (shrunk scenarios)
+    for tp in scn["topics"]:
+        if tp["name"] not in pubs:
+            pubs[tp["name"]] = uros.Publisher(core, tp["name"], getattr(msgs, tp["type"]))
+            model.add_topic(tp["name"], tp["type"])
+            model.has_pub.add(tp["name"])
     for spec in scn["subs"]:
-        if spec["topic"] in tname and spec["type"] != tname[spec["topic"]]:
-            spec = dict(spec, type=tname[spec["topic"]])
-        sub_objs[spec["id"]] = Sub(spec)
-        model.add_sub(spec["id"], spec["topic"], [t for t in spec["republish"] if t in tname])
-        if spec["topic"] not in tname:
-            fault("subscriber_without_publisher")
+        if spec["id"] not in sub_objs:
+            if spec["topic"] in tname and spec["type"] != tname[spec["topic"]]:
+                spec = dict(spec, type=tname[spec["topic"]])
+            sub_objs[spec["id"]] = Sub(spec)
+            model.add_sub(spec["id"], spec["topic"], [t for t in spec["republish"] if t in tname])
     for tp in scn["topics"]:
         if not model.subs.get(tp["name"]):
             fault("topic_without_subscriber")
@@ -328,6 +426,7 @@ def run(scn):
             self.spec = spec
             self.param_list = [uros.Param(core, p["name"], p["value"], p["dtype"]) for p in spec["params"]]
             self.n_cb = 0
+            self.seen_src = None
             if spec["follows"]:
                 self.sub = uros.Subscriber(core, "params", msgs.Params, self.params_callback)
 
@@ -336,11 +435,25 @@ def run(scn):
             rec.rec(core.now, "pcb", self.spec["name"])
             for p in self.param_list:
                 p.update()
+            d = self.spec.get("derive")
+            if d and d["src"] in declared and d["dst"] in declared:
+                v = core.get_param(d["src"])
+                key = np.array(v).tobytes()
+                if key != self.seen_src:
+                    # a derived parameter: set from inside the parameter callback (nested broadcast)
+                    self.seen_src = key
+                    fault("reentrant_set_param")
+                    core.set_param(d["dst"], d["gain"] * float(v))
 
+    declared = {p["name"]: p["dtype"] for n in scn["nodes"] for p in n["params"]}
     pnodes = [PNode(n) for n in scn["nodes"]]
     for n in scn["nodes"]:
         for p in n["params"]:
             model.params[p["name"]] = (p["value"], p["dtype"])
+    for n in scn["nodes"]:
+        d = n.get("derive")
+        if d and n["follows"] and d["src"] in declared and d["dst"] in declared:
+            model.rules.append({"node": n["name"], "src": d["src"], "dst": d["dst"], "gain": d["gain"], "seen": None})
 
     logger = uros.Logger(core)
     model.params["logger/dt"] = (1.0 / 200, "f8")
@@ -402,13 +515,16 @@ def run(scn):
     def do_set_param(name, value, where):
         counters["set_params"] += 1
         model.params[name] = (value, model.params[name][1])
+        model.broadcast()
         ncb0 = [pn.n_cb for pn in pnodes]
         rec.rec(core.now, "set_param", name, value=repr(value))
         core.set_param(name, value)
         rec.rec(core.now, "set_param_ret", name)
+        # how many broadcasts one set_param causes is not part of the property (only that the value
+        # is seen afterwards), so the count is a probe
         for pn, n0 in zip(pnodes, ncb0):
             if pn.spec["follows"] and pn.n_cb != n0 + 1:
-                violation("param_broadcast_count", "Core.set_param", "follower %s got %d parameter broadcasts for one set_param" % (pn.spec["name"], pn.n_cb - n0))
+                counters["broadcast_count_not_one"] = counters.get("broadcast_count_not_one", 0) + 1
         check_followers(where)
 
     for k, v in scn["init_params"].items():
@@ -437,28 +553,11 @@ def run(scn):
                 _, msg, serial, _ = last_pub[op["actor"]]
                 fault("repeat_same_message")
                 # identical object, identical content, published again: a new publication
-                model_serial = serial
             else:
                 msg = get_msg(op["actor"], topic, op.get("fresh", False))
                 serial = rt_serial()
-                model_serial = serial
                 _fill(msg, serial, core.now)
-            model.serial = rt[0]
-            # pre-compute the expectation with a scratch copy of the serial counter
-            scratch = copy.copy(model)
-            exp = []
-            scratch.expand(topic, model_serial, exp)
-            do_publish(topic, msg, serial)
-            if delivered != exp:
-                i = 0
-                while i < min(len(delivered), len(exp)) and delivered[i] == exp[i]:
-                    i += 1
-                violation("delivery_history_differs", "Publisher.publish",
-                          "publish on %s serial %d: callbacks (sub, topic, serial) %s but reference model expects %s (first difference at index %d)"
-                          % (topic, serial, delivered[:10], exp[:10], i), topic=topic)
-            if rt[0] != scratch.serial:
-                violation("delivery_history_differs", "Publisher.publish", "nested publications: %d happened, model expects %d" % (rt[0] - model_serial, scratch.serial - model_serial), topic=topic)
-            model.serial = rt[0]
+            publish_and_compare(topic, msg, serial)
             mutated = False
             if op.get("mutate_after"):
                 fault("mutate_after_publish")
@@ -540,6 +639,7 @@ def run(scn):
     # checked by a process that runs at t=0 (whatever its tie order, run() has
     # already broadcast before the first event is processed)
     def first_check():
+        model.broadcast()
         check_followers("after the initial parameter broadcast")
         yield core.at(0.0)
 
@@ -570,7 +670,10 @@ def run(scn):
         for k, r in enumerate(rows):
             if k == 0:
                 exp_t = 0.0
-            if r["t"] != exp_t:
+            # one row per logging period: the period in force when the previous row was taken; how the
+            # implementation accumulates floating-point time is its own business (1e-6 of a period)
+            tol = 1e-12 + 1e-6 * (float(rows[k - 1]["dt_model"]) if k else 0.0)
+            if abs(r["t"] - exp_t) > tol:
                 violation("row_schedule", "Logger.run", "row %d taken at t=%r, reference model expects t=%r (one row per logging period)" % (k, r["t"], exp_t), row=k)
                 break
             e = np.zeros(1, dtype=log_dtype)[0]
@@ -590,7 +693,7 @@ def run(scn):
                 break
             exp_t = r["t"] + float(r["dt_model"])
         if rows and exp_t is not None and not viol:
-            if exp_t < scn["tf"]:
+            if exp_t < scn["tf"] - 1e-6 * float(rows[-1]["dt_model"]) - 1e-12:
                 violation("row_missing", "Logger.run", "no row at t=%r although the run lasted until %r" % (exp_t, scn["tf"]))
         if not rows:
             violation("row_missing", "Logger.run", "logger recorded no row at all")
@@ -629,7 +732,7 @@ def sample(scn):
 
 
 # shrinking hints -------------------------------------------------------------
-LIST_KEYS = ("ops", "subs", "nodes", "topics")
+LIST_KEYS = ("ops", "setup", "subs", "nodes", "topics")
 
 
 def simplify(scn):
